@@ -519,6 +519,8 @@ func matchFilter(filter Filter, value interface{}) (bool, interface{}, error) {
 				return true, value, nil
 			}
 		}
+		// none of the elements matches
+		return false, nil, nil
 	default:
 		// object not supported for now
 		return false, nil, ErrUnsupportedFilter
